@@ -56,6 +56,22 @@ StSuppressedOnlyAtStringEnd ==
        ELSE IF prev \in DcsHeadStates THEN TRUE
        ELSE n > Len(p.out) /\ p'.out[n] = EscI(<<>>, 92)]_vars
 
+(* Sanity of the comparison of device control strings (constant level): a    *)
+(* value beyond the prescribed range leaves that one value open, the values  *)
+(* beside it and the number of parameters stay exact.                        *)
+Nines20 == [k \in 1..20 |-> 57]
+HugeHdr == <<49, 59>> \o Nines20 \o <<59, 51>>                 \* 1;99999999999999999999;3
+WantDcs == DcsI(<<>>, DcsParams(HugeHdr), 113, <<35>>)
+GotDcs(ps) == DcsI(<<>>, ps, 113, <<35>>)
+ASSUME DcsParams(HugeHdr) = <<(<<1>>), Huge, (<<3>>)>>
+ASSUME DcsEq(GotDcs(<<(<<1>>), Huge, (<<3>>)>>), WantDcs)            \* saturated (logged as Huge): accepted
+ASSUME DcsEq(GotDcs(<<(<<1>>), (<<7>>), (<<3>>)>>), WantDcs)         \* the out-of-range value itself is open
+ASSUME ~DcsEq(GotDcs(<<>>), WantDcs)                               \* all parameters lost
+ASSUME ~DcsEq(GotDcs(<<(<<1>>), Huge>>), WantDcs)                   \* one parameter lost
+ASSUME ~DcsEq(GotDcs(<<(<<1>>), Huge, (<<4>>)>>), WantDcs)          \* a neighbour altered
+ASSUME ~DcsEq(GotDcs(<<(<<1>>), Huge, (<<3>>)>>), DcsI(<<>>, DcsParams(<<49, 59, 50, 59, 51>>), 113, <<35>>))
+ASSUME TableCoversAll(<<27, 80, 49, 113, 27, 92, Gap>>) /\ ~TableCoversAll(<<27, 80, 233>>) /\ ~TableCoversAll(<<255>>)
+
 States == {"ground", "escape", "escInter", "ss3", "csiEntry", "csiParam", "csiInter", "csiIgnore", "dcsEntry",
            "dcsParam", "dcsInter", "dcsPass", "dcsIgnore", "sosPm", "apc", "osc", "unconstrained"}
 TypeOK == p.st \in States /\ p.sup \in {"no", "yes", "either"} /\ p.st # "unconstrained"
